@@ -110,7 +110,7 @@ def unit_number(unit, t):
 
 
 def fresh_t(e, name, cfg):
-    return SymDT.fresh(e, name, cfg.get("ylo", 1900), cfg.get("yhi", 2200), 1000)
+    return SymDT.fresh(e, name, cfg.get("ylo", 1900), cfg.get("yhi", 2200), 1000, res=cfg.get("res"))
 
 
 # ------------------------------------------------------------------------------------ C17
@@ -208,8 +208,10 @@ def sym_mk(e, cfg):
 
 
 def conc_real(inputs, name):
+    if name + "_ms" in inputs:
+        return _dt.datetime(1970, 1, 1) + _dt.timedelta(milliseconds=int(round(inputs[name + "_ms"])))
     return _dt.datetime(1970, 1, 1) + _dt.timedelta(
-        days=int(inputs[name + "_day"]), hours=int(inputs[name + "_h"]), minutes=int(inputs[name + "_mi"]), seconds=int(inputs[name + "_s"]), milliseconds=int(inputs.get(name + "_sub", 0))
+        days=int(inputs[name + "_day"]), hours=int(inputs[name + "_h"]), minutes=int(inputs.get(name + "_mi", 0)), seconds=int(inputs.get(name + "_s", 0)), milliseconds=int(inputs.get(name + "_sub", 0))
     )
 
 
@@ -219,6 +221,12 @@ def run(e, cfg):
     k = cfg["kind"]
     if k == "time-c17":
         c17(sink, cfg, sym_mk(e, cfg), lambda v: v)
+    elif k == "time-c15":
+        c15(sink, cfg, sym_mk(e, cfg), lambda v: v, lambda name, lo, hi: e.real(name, lo, hi))
+    elif k == "time-c16":
+        c16(sink, cfg, sym_mk(e, cfg), lambda v: v)
+    elif k == "time-c14":
+        c14t(sink, cfg, sym_mk(e, cfg), lambda v: v)
     else:
         raise E.ModelGap("unknown time harness %s" % k)
 
@@ -249,10 +257,19 @@ def replay(cfg, inputs, check, info, tag):
         real[name] = d
         return _RealDT(d)
 
+    mk.inputs = inputs
+    mk.real = real
+
     try:
         k = cfg["kind"]
         if k == "time-c17":
             c17(sink, cfg, mk, lambda v: v)
+        elif k == "time-c15":
+            c15(sink, cfg, mk, lambda v: Fraction(v), lambda name, lo, hi: float(inputs[name]))
+        elif k == "time-c16":
+            c16(sink, cfg, mk, lambda v: Fraction(v))
+        elif k == "time-c14":
+            c14t(sink, cfg, mk, lambda v: Fraction(v))
     except Exception as ex:
         import traceback
 
@@ -329,3 +346,278 @@ def selfcheck():
     if bad:
         out["failed"] = "calendar model disagrees with datetime on %d of %d cases" % (bad, n)
     return out
+
+
+# ------------------------------------------------------------------------------------ C15
+R15 = 10**6
+
+
+def c15_configs(tier, tz="utc"):
+    return [dict(name="c15-%s" % k, kind="time-c15", case=k, tz=tz, weight=5) for k in ("ends", "linear-in-ms", "equal-durations", "monotone", "invert", "range-reset")]
+
+
+def ms_of(t):
+    """milliseconds since the epoch as an exact number, from the instant's own representation"""
+    u = t.us
+    return u / 1000 if isinstance(u, int) else E.SymReal(E.lin_of(u).scale(Fraction(1, 1000)))
+
+
+def c15(sink, cfg, mk, num, val):
+    from labella.scale import LinearScale, TimeScale
+
+    if sink.mode == "sym" and cfg["case"] != "ends":
+        # no calendar operation is involved: the instants are REAL-valued epoch milliseconds (a superset of the ms grid),
+        # which keeps the non-linear queries in pure real arithmetic
+        lo_ms = (_dt.datetime(1900, 1, 1) - _dt.datetime(1970, 1, 1)).total_seconds() * 1000
+        hi_ms = (_dt.datetime(2201, 1, 1) - _dt.datetime(1970, 1, 1)).total_seconds() * 1000
+        mk = lambda name: SymDT(sink.e.real(name + "_ms", lo_ms, hi_ms) * 1000)
+    d0, d1 = mk("d0"), mk("d1")
+    r0, r1 = val("r0", -R15, R15), val("r1", -R15, R15)
+    if sink.mode == "sym":
+        sink.e.assume(d0.us != d1.us)
+        sink.e.assume(r0 != r1)
+    elif d0.us == d1.us or r0 == r1:
+        return
+    ts = TimeScale().domain([d0, d1]).range([r0, r1])
+    case = cfg["case"]
+    eq = (lambda u, v: And(u == v)) if sink.mode == "sym" else (lambda u, v: abs(Fraction(u) - Fraction(v)) <= Fraction(1, 10**7) * (1 + abs(Fraction(v)) + abs(Fraction(r0)) + abs(Fraction(r1))))
+    if case == "ends":
+        sink.check("first-domain-instant-maps-to-first-range-end", eq(num(ts(d0)), num(r0)))
+        sink.check("second-domain-instant-maps-to-second-range-end", eq(num(ts(d1)), num(r1)))
+        dom = ts.domain()
+        sink.check("domain-getter-returns-the-instants", And(SymDT.lift(dom[0]).us == d0.us, SymDT.lift(dom[1]).us == d1.us))
+        return
+    if case == "range-reset":
+        # the caller re-submits the SAME list object after editing it in place, and edits the list the getter returned
+        r2 = val("r2", -R15, R15)
+        lst = [r0, r1]
+        ts.range(lst)
+        lst[1] = r2
+        ts.range(lst)
+        sink.check("range-set-again-with-an-edited-list-takes-effect", And(eq(num(ts(d1)), num(r2)), eq(num(ts(d0)), num(r0))))
+        cur_ = ts.range()
+        cur_[0] = cur_[0] + 50
+        ts.range(cur_)
+        sink.check("range-getter-list-edited-and-set-again-takes-effect", And(eq(num(ts(d0)), num(r0) + 50), eq(num(ts(d1)), num(r2))))
+        return
+    t = mk("t")
+    if case == "linear-in-ms":
+        L = LinearScale().domain([ms_of(d0), ms_of(d1)]).range([r0, r1])
+        sink.check("agrees-with-a-linear-scale-on-epoch-milliseconds", eq(num(ts(t)), num(L(ms_of(t)))))
+    elif case == "equal-durations":
+        u = mk("u")
+        # the same duration delta (>= 0 ms) added to t and to u
+        dl = val("delta_ms", 0, 10**9)
+        if sink.mode == "sym":
+            t2, u2 = SymDT(t.us + dl * 1000), SymDT(u.us + dl * 1000)
+        else:
+            t2, u2 = t + _dt.timedelta(milliseconds=int(dl)), u + _dt.timedelta(milliseconds=int(dl))
+        sink.check("equal-durations-map-to-equal-lengths", eq(num(ts(t2)) - num(ts(t)), num(ts(u2)) - num(ts(u))))
+    elif case == "monotone":
+        u = mk("u")
+        if sink.mode == "sym":
+            sink.e.assume(t.us < u.us)
+        elif not t.us < u.us:
+            return
+        st, su = num(ts(t)), num(ts(u))
+        up = Or(And(d0.us < d1.us, num(r0) < num(r1)), And(d1.us < d0.us, num(r1) < num(r0)))
+        sink.check("later-instants-map-strictly-farther-along-the-range", And(Implies(up, st < su), Implies(Not(up), st > su)))
+    elif case == "invert":
+        inside = Or(And(d0.us <= t.us, t.us <= d1.us), And(d1.us <= t.us, t.us <= d0.us))
+        if sink.mode == "sym":
+            sink.e.assume(inside)
+        elif not inside:
+            return
+        back = SymDT.lift(ts.invert(ts(t)))
+        diff = back.us - t.us
+        sink.check("invert-returns-the-instant-within-a-millisecond", And(diff <= 1000, diff >= -1000))
+
+
+# ------------------------------------------------------------------------------------ C16 / C14-time
+STEPS_MS = [1e3, 5e3, 15e3, 3e4, 6e4, 3e5, 9e5, 18e5, 36e5, 108e5, 216e5, 432e5, 864e5, 1728e5, 6048e5, 2592e6, 7776e6, 31536e6]
+SPAN_MAX_MS = 250 * 366 * 86400 * 1000
+
+
+def span_windows(m):
+    """partition of the span range [1 ms, 250 years] at m * (each entry of the code's own step table, read from the module)"""
+    from labella import scale as SC
+
+    steps = [float(x) for x in SC.d3_time_scaleSteps]
+    edges = [1] + [int(m * s) for s in steps] + [SPAN_MAX_MS]
+    return [(edges[i], edges[i + 1]) for i in range(len(edges) - 1) if edges[i] < edges[i + 1]]
+
+
+ANCHORS = ["2021-01-25T00:00:00", "2021-01-31T10:00:00", "2020-02-29T00:00:00", "2020-02-28T23:59:59.999", "1999-12-31T12:30:45.500", "1969-12-31T23:59:58.002", "1900-03-01T00:00:00.001", "2199-06-15T18:00:00"]
+
+
+def c16_configs(tier, kind="time-c16", tz="utc"):
+    """quick: the earlier end point is one of a few concrete calendar anchors (month end, leap day, year end, before the
+    epoch, sub-second offsets) and the SPAN is symbolic inside each window; thorough: both end points fully symbolic"""
+    out = []
+    nwin = len(STEPS_MS) + 1
+    short = kind.replace("time-", "")
+    if tier == "quick":
+        for m in (10, 5):
+            for w in range(nwin):
+                for ai, a in enumerate(ANCHORS if m == 10 else ANCHORS[:3]):
+                    out.append(dict(name="%s-m%d-win%02d-anchor%d" % (short, m, w, ai), kind=kind, m=m, win=w, orient=1 if (ai + w) % 3 else -1, anchor=a, tz=tz, weight=2))
+        return out
+    for m in [2, 3, 5, 7, 10, 12]:
+        for w in range(nwin):
+            for ai, a in enumerate(ANCHORS):
+                out.append(dict(name="%s-m%d-win%02d-anchor%d" % (short, m, w, ai), kind=kind, m=m, win=w, orient=1 if (ai + w) % 2 else -1, anchor=a, tz=tz, weight=2))
+    for m in (10, 5):
+        for w in range(nwin):
+            d = dict(name="%s-m%d-win%02d-symbolic" % (short, m, w), kind=kind, m=m, win=w, orient=1, tz=tz, weight=60, shards=16)
+            d["res"] = "ms" if w <= 4 else ("s" if w <= 9 else ("min" if w <= 14 else "h"))
+            out.append(d)
+    return out
+
+
+def _domain_for(sink, cfg, mk):
+    m, w = cfg["m"], cfg["win"]
+    lo, hi = span_windows(m)[w]
+    if cfg.get("span_cap_ms"):
+        hi = min(hi, int(cfg["span_cap_ms"]))
+    if cfg.get("anchor"):
+        a0 = _dt.datetime.fromisoformat(cfg["anchor"])
+        if sink.mode == "sym":
+            a = SymDT.lift(a0)
+            sp = sink.e.integer("span_ms", lo, hi - 1)
+            b = SymDT(a.us + sp * 1000)
+        else:
+            a = _RealDT(a0)
+            b = _RealDT(a0 + _dt.timedelta(milliseconds=int(mk.inputs["span_ms"])))
+            mk.real.update(t0=a, t1=b)
+        return a, b
+    a, b = mk("t0"), mk("t1")
+    span_us = b.us - a.us
+    if sink.mode == "sym":
+        sink.e.assume(span_us >= lo * 1000)
+        sink.e.assume(span_us < hi * 1000)
+    elif not (lo * 1000 <= span_us < hi * 1000):
+        return None
+    return a, b
+
+
+def aligned(unit, x):
+    return is_boundary(unit, x)
+
+
+def c16(sink, cfg, mk, num):
+    from labella.scale import TimeScale
+
+    dom = _domain_for(sink, cfg, mk)
+    if dom is None:
+        return
+    a, b = dom
+    m = cfg["m"]
+    ts = TimeScale().domain([a, b] if cfg["orient"] > 0 else [b, a])
+    try:
+        T = ts.ticks(m)
+    except Exception as ex:
+        if sink.mode == "conc" and not props.exception_from_code_under_test(ex):
+            raise
+        sink.check("ticks-never-raises", False, info="%s: %s" % (type(ex).__name__, str(ex)[:120]))
+        return
+    T = [SymDT.lift(x) for x in T]
+    n = len(T)
+    info = "m=%d window=%d ticks=%d" % (m, cfg["win"], n)
+    span_ms_lo = span_windows(m)[cfg["win"]][0]
+    sink.check("strictly-increasing", And(*[x.us < y.us for x, y in zip(T, T[1:])]), info=info)
+    gaps = [y.us - x.us for x, y in zip(T, T[1:])]
+    sub_second = And(*[g < 10**6 for g in gaps]) if gaps else True
+    slack = 1000
+    sink.check("inside-the-domain", And(*[And(x.us >= a.us - slack, x.us <= b.us + slack) for x in T]), info=info)
+    sink.check("inside-the-domain-exactly-unless-sub-second", Implies(Not(sub_second), And(*[And(x.us >= a.us, x.us <= b.us) for x in T])), info=info)
+    # count
+    span_us = b.us - a.us
+    short = span_us < m * 1000
+    cnt_ok = And(n >= Fraction(m) / Fraction(12, 5) - 1, n <= Fraction(12, 5) * m + 1)
+    one_per_ms = And(span_us == (n - 1) * 1000) if n >= 1 else False
+    sink.check("tick-count-within-bounds", Or(And(Not(short), cnt_ok), And(short, Or(one_per_ms, cnt_ok))), info=info)
+    # gaps within a factor two
+    if len(gaps) >= 2:
+        sink.check("consecutive-gaps-within-a-factor-of-two", And(*[g1 <= 2 * g2 for g1 in gaps for g2 in gaps]), info=info)
+    # calendar alignment no finer than the spacing implies
+    if gaps:
+        gmin_ge = lambda v: And(*[g >= v for g in gaps])
+        for unit, thr in (("second", 10**6), ("minute", 60 * 10**6), ("hour", 3600 * 10**6), ("day", DAY_US), ("month", 28 * DAY_US), ("year", 365 * DAY_US)):
+            c = gmin_ge(thr)
+            if c is False:
+                break
+            if c is not True and sink.mode == "sym":
+                if not sink.e.branch(c):
+                    break
+            sink.check("ticks-aligned-to-%s-boundaries-when-spacing-is-that-coarse" % unit, And(*[aligned(unit, x) for x in T]), info=info)
+
+
+def nice_configs(tier):
+    out = []
+    nwin = len(STEPS_MS) + 1
+    for c in c16_configs(tier, kind="time-c14"):
+        if tier == "quick" and c["m"] != 10 and c["win"] % 3:
+            continue
+        if tier == "quick":
+            # nice() walks down/up to the next non-skipped boundary one unit at a time: cap the windows whose step can be
+            # hundreds of units (millisecond ticks, multi-year ticks); the thorough tier explores them in full
+            if c["win"] == 0:
+                c["span_cap_ms"] = 20 * c["m"]
+            if c["win"] == nwin - 1:
+                c["span_cap_ms"] = 40 * 366 * 86400 * 1000
+        out.append(c)
+    return out
+
+
+def c14t(sink, cfg, mk, num):
+    from labella.scale import TimeScale
+
+    dom = _domain_for(sink, cfg, mk)
+    if dom is None:
+        return
+    a, b = dom
+    m = cfg["m"]
+    asc = cfg["orient"] > 0
+    ts = TimeScale().domain([a, b] if asc else [b, a])
+    try:
+        T = [SymDT.lift(x) for x in ts.ticks(m)]
+        if m == 10:
+            ts.nice()
+        else:
+            ts.nice(m)
+        nd = [SymDT.lift(x) for x in ts.domain()]
+    except Exception as ex:
+        if sink.mode == "conc" and not props.exception_from_code_under_test(ex):
+            raise
+        sink.check("nice-never-raises", False, info="%s: %s" % (type(ex).__name__, str(ex)[:120]))
+        return
+    n_lo, n_hi = (nd[0], nd[1]) if asc else (nd[1], nd[0])
+    info = "m=%d window=%d ticks(original)=%d" % (m, cfg["win"], len(T))
+    sink.check("orientation-kept", And(nd[0].us < nd[1].us) if asc else And(nd[0].us > nd[1].us), info=info)
+    sink.check("never-moves-an-end-inward", And(n_lo.us <= a.us, n_hi.us >= b.us), info=info)
+    gaps = [y.us - x.us for x, y in zip(T, T[1:])]
+    if gaps:
+        # less than two tick steps (of the original domain's ticks): 2 * the largest gap bounds it from above
+        sink.check("moves-outward-by-less-than-two-tick-steps", And(Or(*[a.us - n_lo.us < 2 * g for g in gaps]), Or(*[n_hi.us - b.us < 2 * g for g in gaps])), info=info)
+        gmin_ge = lambda v: And(*[g >= v for g in gaps])
+        for unit, thr in (("second", 10**6), ("minute", 60 * 10**6), ("hour", 3600 * 10**6), ("day", DAY_US), ("month", 28 * DAY_US), ("year", 365 * DAY_US)):
+            c = gmin_ge(thr)
+            if c is False:
+                break
+            if c is not True and sink.mode == "sym":
+                if not sink.e.branch(c):
+                    break
+            sink.check("new-end-points-aligned-to-%s-boundaries" % unit, And(aligned(unit, n_lo), aligned(unit, n_hi)), info=info)
+        else:
+            pass
+        sub = And(*[g < 10**6 for g in gaps])
+        sink.check("sub-second-ticks-move-ends-by-less-than-a-millisecond-off-the-tick-grid", Implies(sub, And(a.us - n_lo.us < 2 * max_of(gaps, sink), n_hi.us - b.us < 2 * max_of(gaps, sink))), info=info)
+
+
+def max_of(xs, sink):
+    m = xs[0]
+    for x in xs[1:]:
+        c = x > m
+        if c is True or (c is not False and (sink.e.branch(c) if sink.mode == "sym" else bool(c))):
+            m = x
+    return m
